@@ -78,6 +78,8 @@ pub struct VoiceOpts {
     pub shape: f64, // bound on sum_{m>=1} |c_m| of static spectral means
     /// window ranges in [POSITION] end at the last digit (the separating newline is outside)
     pub win_tight: bool,
+    /// node lines of a tree are written out of id order (every node still after the root)
+    pub shuffle_nodes: bool,
 }
 
 pub const WINDOW_SETS: [&[&[f64]]; 5] = [
@@ -116,6 +118,7 @@ impl VoiceOpts {
             dur_scale: *rng.pick(&[1.0, 1.0, 3.0]),
             shape: 1.0,
             win_tight: rng.chance(0.4),
+            shuffle_nodes: rng.chance(0.4),
         }
     }
     /// small and fast: for interpreters (Miri) and exhaustive histories
@@ -141,14 +144,15 @@ impl VoiceOpts {
             dur_scale: 0.3,
             shape: 1.0,
             win_tight: false,
+            shuffle_nodes: false,
         }
     }
     pub fn describe(&self) -> String {
         format!(
-            "streams={} nstate={} stage={} ln_gain={} mcp={} lpf={} win=({},{}) gv=({},{}) rate={} fp={} alpha={} depth={} transparent={} quote={} regex_root={} win_tight={}",
+            "streams={} nstate={} stage={} ln_gain={} mcp={} lpf={} win=({},{}) gv=({},{}) rate={} fp={} alpha={} depth={} transparent={} quote={} regex_root={} win_tight={} shuffle_nodes={}",
             self.nstreams, self.nstate, self.stage, self.ln_gain as u8, self.mcp_len, self.lpf_len,
             self.win_mcp, self.win_lf0, self.gv_mcp as u8, self.gv_lf0 as u8, self.rate, self.fperiod,
-            self.alpha, self.max_depth, self.transparent as u8, self.quote_mode, self.regex_root as u8, self.win_tight as u8
+            self.alpha, self.max_depth, self.transparent as u8, self.quote_mode, self.regex_root as u8, self.win_tight as u8, self.shuffle_nodes as u8
         )
     }
 }
@@ -542,7 +546,7 @@ impl TreeWriter<'_> {
     }
 }
 
-fn write_model_text(m: &ModelSpec, quote_mode: u8) -> String {
+fn write_model_text(m: &ModelSpec, quote_mode: u8, shuffle_nodes: bool) -> String {
     let mut s = String::new();
     for (name, pats) in &m.questions {
         let list: Vec<String> = pats.iter().map(|p| format!("\"{}\"", p)).collect();
@@ -571,7 +575,20 @@ fn write_model_text(m: &ModelSpec, quote_mode: u8) -> String {
                         tw.out.push_str(&format!("{:>4} {:<40} {:>16} {:>16} \n", id, q, no_t, yes_t));
                     }
                 }
-                s.push_str(&tw.out);
+                if shuffle_nodes {
+                    // keep the root line first, rotate / reverse the others deterministically
+                    let mut lines: Vec<&str> = tw.out.lines().collect();
+                    if lines.len() > 2 {
+                        let rest = &mut lines[1..];
+                        rest.reverse();
+                        let k = t.state % rest.len();
+                        rest.rotate_left(k);
+                    }
+                    s.push_str(&lines.join("\n"));
+                    s.push('\n');
+                } else {
+                    s.push_str(&tw.out);
+                }
                 s.push_str("}\n\n");
             }
         }
@@ -612,7 +629,7 @@ pub fn write_hooked(spec: &VoiceSpec, hook: &mut dyn FnMut(&str, String) -> Vec<
     };
     let r = put(&mut data, &write_pdf(&spec.duration));
     pos.push(format!("DURATION_PDF:{}", r));
-    let r = put(&mut data, &hook("DURATION_TREE", write_model_text(&spec.duration, spec.quote_mode)));
+    let r = put(&mut data, &hook("DURATION_TREE", write_model_text(&spec.duration, spec.quote_mode, spec.opts.shuffle_nodes)));
     pos.push(format!("DURATION_TREE:{}", r));
     for s in &spec.streams {
         let mut rs = Vec::new();
@@ -639,7 +656,7 @@ pub fn write_hooked(spec: &VoiceSpec, hook: &mut dyn FnMut(&str, String) -> Vec<
         pos.push(format!("STREAM_PDF[{}]:{}", s.name, r));
     }
     for s in &spec.streams {
-        let r = put(&mut data, &hook(&format!("STREAM_TREE[{}]", s.name), write_model_text(&s.model, spec.quote_mode)));
+        let r = put(&mut data, &hook(&format!("STREAM_TREE[{}]", s.name), write_model_text(&s.model, spec.quote_mode, spec.opts.shuffle_nodes)));
         pos.push(format!("STREAM_TREE[{}]:{}", s.name, r));
     }
     for s in &spec.streams {
@@ -650,7 +667,7 @@ pub fn write_hooked(spec: &VoiceSpec, hook: &mut dyn FnMut(&str, String) -> Vec<
     }
     for s in &spec.streams {
         if let Some(g) = &s.gv {
-            let r = put(&mut data, &hook(&format!("GV_TREE[{}]", s.name), write_model_text(g, spec.quote_mode)));
+            let r = put(&mut data, &hook(&format!("GV_TREE[{}]", s.name), write_model_text(g, spec.quote_mode, spec.opts.shuffle_nodes)));
             pos.push(format!("GV_TREE[{}]:{}", s.name, r));
         }
     }
